@@ -165,6 +165,21 @@ def run(chk, tier):
                    and (H.path_of(H.peel(x[2])[3]) or "").endswith("WriteState::Ready")]
             chk.expect(len(asg) == 1, "async-state", "poll_write", f"writing-completion#{done}", "state = WriteState::Ready before returning Ok(consumed)", len(asg))
     chk.expect(done == 1, "async-state", "poll_write", "writing-completions", 1, done)
+    # the cursor into self.buffer across partial writes: Ready arm writes buffer[written..], Writing(pos, _) arm writes buffer[pos + written..];
+    # `written += n` after each partial write; done when the cursor reaches buffer.len(); a Pending exit stores the cursor reached so far
+    rarm = arms[tab["Ready"][0]][2]
+
+    def cursor_facts(arm):
+        slices = sorted(H.show(y[3], 5).replace("core::ops::range::", "") for y in H.walk(arm) if H.kind(y) == "index" and "RangeFrom" in H.show(y[3], 3) and "buffer" in H.show(y[2], 4))
+        adv = sorted(f"{H.show(y[3], 2)} {y[2]} {H.show(y[4], 2)}" for y in H.walk(arm) if H.kind(y) == "assignop")
+        done_t = sorted(H.show(y[2], 6) for y in H.walk(arm) if H.kind(y) == "if" and "buffer.len()" in H.show(y[2], 6) and any(H.kind(z) == "ret" for z in H.walk(y[3])))
+        stored = sorted(H.show(H.peel(y[3]), 5) for y in H.walk(arm) if H.kind(y) == "assign" and "WriteState::Writing" in H.show(y[3], 4))
+        return {"slices": slices, "advance": adv, "done": done_t, "stored": [s.split("WriteState::")[-1] for s in stored]}
+    got_r, got_w = cursor_facts(rarm), cursor_facts(warm)
+    want_r = {"slices": ["RangeFrom{start: written}"], "advance": ["written AddAssign n"], "done": ["(written Eq this.buffer.len())"], "stored": ["Writing(written, consumed)"]}
+    want_w = {"slices": ["RangeFrom{start: (pos Add written)}"], "advance": ["written AddAssign n"], "done": ["((written Add pos) Eq this.buffer.len())"], "stored": ["Writing((pos Add written), consumed)"]}
+    chk.expect(got_r == want_r, "async-state", "poll_write", "cursor/Ready", want_r, got_r, loc=C.fn_loc(ha_w))
+    chk.expect(got_w == want_w or got_w == dict(want_w, done=["((pos Add written) Eq this.buffer.len())"]), "async-state", "poll_write", "cursor/Writing", want_w, got_w, loc=C.fn_loc(ha_w))
     guards = [x for x in H.walk(ha_f["body"]) if H.kind(x) == "if" and "Writing(" in H.show(x[2], 6) and ".state" in H.show(x[2], 6) and any(H.kind(y) == "ret" and "Err" in H.show(y, 4) for y in H.walk(x[3]))]
     first_stmt_line = min(x[1] for x in guards) if guards else None
     chk.expect(len(guards) == 1 and all(first_stmt_line <= y[1] for c, y in H.calls(ha_f["body"]) if c == f"{PD}::setup_pdata_header"), "async-state", "finish_impl",
